@@ -24,7 +24,7 @@ import os
 import sys
 import time
 
-DUMP_EVERY = 1000
+DUMP_EVERY = 500
 
 
 def main():
@@ -74,7 +74,8 @@ def main():
     if not ctx.targets:
         print("fuzzchild: no targets", file=sys.stderr)
         os._exit(2)
-    state = {"execs": 0, "errors": [], "t0": time.time()}
+    state = {"execs": 0, "errors": [], "t0": time.time(),
+             "secs": int(os.environ.get("VP_FUZZ_SECONDS", "300"))}
     seen = set()
 
     def dump(final=False):
@@ -131,8 +132,11 @@ def main():
                 import traceback
                 if len(state["errors"]) < 3:
                     state["errors"].append(traceback.format_exc()[-1500:])
-        if state["execs"] % DUMP_EVERY == 0 or state["execs"] >= runs:
-            dump(final=state["execs"] >= runs)
+        late = time.time() - state["t0"] > state["secs"] - 8
+        if state["execs"] % DUMP_EVERY == 0 or state["execs"] >= runs or late:
+            if late and state["execs"] % 20 and state["execs"] < runs:
+                return
+            dump(final=state["execs"] >= runs or late)
 
     maxlen = 1 + max(t[2] for t in ctx.targets)
     corpus = outfile + ".corpus"
@@ -146,7 +150,9 @@ def main():
         with open(os.path.join(corpus, f"rand{k}"), "wb") as fh:
             fh.write(bytes([k]) + h)
     dump()
+    secs = int(os.environ.get("VP_FUZZ_SECONDS", "300"))
     argv = [sys.argv[0], f"-runs={runs}", f"-seed={seed * 1000 + shard + 1}",
+            f"-max_total_time={secs}",
             f"-max_len={maxlen}", "-len_control=0", "-verbosity=0",
             "-print_final_stats=0", corpus]
     atheris.Setup(argv, one)
